@@ -59,3 +59,47 @@ Lemma spine_nounlock_refuted_lemma :
 Proof.
   exists spine_history, 1000, (Var "r"). vm_compute. split; discriminate.
 Qed.
+
+(* Copies of thunk data that keep the state (the derived Clone of ThunkData at the pinned commit,
+   reached from Thunk::saturate and with_pos_idx during a record merge): a field merged while it is
+   being evaluated is copied black-holed, the copy is on no update frame and is never reset. *)
+Definition copy_record (body : tm) (other : tm) : tm :=
+  Rec [("r", Rec [("y", Seq (Var "m") body)]);
+       ("m", Op2 OMerge (Var "r") (Rec [("y", other)]))].
+
+Definition copy_history : list input :=
+  [IDef "o" (copy_record (Op2 OAdd (Num 1) (Bool true)) (Num 2));
+   IEval 1000 (Proj (Proj (Var "o") "r") "y")].
+
+Definition copy_input : tm := Proj (Proj (Var "o") "m") "y".
+
+(* the machine whose copies are born suspended answers like the stand-alone program *)
+Example copy_ok :
+  snd (sess_run empty_session copy_history) = [OBound; OErr ETypeErr] /\
+  snd (sess_step (fst (sess_run empty_session copy_history)) (IEval 1000 copy_input)) = OErr ETypeErr /\
+  spec_run 40 (defs_of copy_history) copy_input = Err ETypeErr.
+Proof. vm_compute. auto. Qed.
+
+Lemma session_equiv_thunk_copy_refuted_lemma :
+  exists h k e n c,
+    snd (sess_step_satcopy (fst (sess_run_satcopy empty_session h)) (IEval k e)) = OErr EInfRec /\
+    spec_run n (defs_of h) e = Err c.
+Proof.
+  exists copy_history, 1000, copy_input, 40, ETypeErr. vm_compute. auto.
+Qed.
+
+(* the same inside ONE evaluation, with no failure at all: o.r.y + o.m.y reports an infinite
+   recursion, although the call-by-name meaning is 10 (and o.m.y + o.r.y evaluates to 10) *)
+Definition copy_single (swap : bool) : tm :=
+  Let "o" (copy_record (Num 5) (Num 5))
+      (if swap
+       then Op2 OAdd (Proj (Proj (Var "o") "m") "y") (Proj (Proj (Var "o") "r") "y")
+       else Op2 OAdd (Proj (Proj (Var "o") "r") "y") (Proj (Proj (Var "o") "m") "y")).
+
+Lemma thunk_copy_order_refuted_lemma :
+  exists k n,
+    snd (sess_step_satcopy empty_session (IEval k (copy_single false))) = OErr EInfRec /\
+    snd (sess_step_satcopy empty_session (IEval k (copy_single true))) = OOk (ONum 10) /\
+    spec_run n [] (copy_single false) = Val (VNum 10) /\
+    snd (sess_step empty_session (IEval k (copy_single false))) = OOk (ONum 10).
+Proof. exists 1000, 40. vm_compute. auto. Qed.
